@@ -356,3 +356,140 @@ pub fn c05(rep: &mut Report, thorough: bool) {
         }
     }
 }
+
+// ------------------------------------------------------------------------------------------ C08
+/// hibernate = sleep, reset + init = wake-up
+pub fn c08(rep: &mut Report, thorough: bool) {
+    let prefixes: Vec<Vec<Op12>> = vec![
+        vec![],
+        vec![Op12::Write1(small_rows(2))],
+        vec![Op12::Refresh],
+        vec![Op12::Write2Partial((640, 488, 16, 8), vec![0xA5; 16]), Op12::RefreshPartial((640, 488, 16, 8))],
+        vec![Op12::PowerOff],
+        vec![Op12::SetMode(7)],
+    ];
+    let suffixes: Vec<Vec<Op12>> = vec![
+        vec![],
+        vec![Op12::Write1(small_rows(3))],
+        vec![Op12::Write2Partial((8, 480, 1288, 20), small_rows(20)[..161 * 20].to_vec())],
+        vec![Op12::Write1(small_rows(1)), Op12::Refresh],
+    ];
+    let cycles: Vec<u32> = if thorough { vec![0, 1, 2, 3] } else { vec![0, 1, 2] };
+    // reference: construction
+    let reference = |suf: &Vec<Op12>| -> (Vec<std::collections::BTreeMap<u8, Vec<u8>>>, Vec<(u64, u64)>, Vec<usize>) {
+        let mut r = Rig12::ready();
+        let snaps = r.board.borrow().chips.iter().map(|c| c.reg_snapshot()).collect();
+        for c in r.board.borrow_mut().chips.iter_mut() {
+            c.mark();
+        }
+        let r0: Vec<usize> = r.board.borrow().chips.iter().map(|c| c.refreshes.len()).collect();
+        for o in suf {
+            let _ = r.apply(o);
+        }
+        let b = r.board.borrow();
+        let eff = b.chips.iter().map(|c| (c.planes[0].writes, c.planes[1].writes)).collect();
+        let refr = b.chips.iter().enumerate().map(|(i, c)| c.refreshes.len() - r0[i]).collect();
+        (snaps, eff, refr)
+    };
+    for pre in &prefixes {
+        for suf in &suffixes {
+            for cyc in &cycles {
+                rep.eval(P);
+                let mut rig = Rig12::ready();
+                let mut hist: Vec<Op12> = pre.clone();
+                let mut ok = true;
+                for o in pre {
+                    if !rig.apply(o).is_ok() {
+                        ok = false;
+                    }
+                }
+                if !ok {
+                    rep.count("ops_failing_for_other_reasons", 1);
+                    continue;
+                }
+                let mut fails: Vec<(String, String, Vec<String>, String)> = Vec::new();
+                let n = (*cyc).max(1);
+                for _ in 0..n {
+                    if *cyc > 0 {
+                        hist.push(Op12::Hibernate);
+                        let o = rig.apply(&Op12::Hibernate);
+                        if !o.is_ok() {
+                            ok = false;
+                            break;
+                        }
+                        let b = rig.board.borrow();
+                        for (ci, c) in b.chips.iter().enumerate() {
+                            let last = c.cmds.iter().filter(|x| x.opidx == c.opidx).last();
+                            let sig_ok = last.map(|l| l.op == 0x07 && l.nparams == 1 && l.params[0] == 0xA5).unwrap_or(false);
+                            if !sig_ok || !c.asleep {
+                                fails.push(("hibernate".into(), "sleep-signature".into(), vec![format!("chip={}", CHIP_NAMES[ci])], format!("chip {}: last command {:?}, asleep={}", CHIP_NAMES[ci], last.map(|l| (l.op, l.params.clone())), c.asleep)));
+                            }
+                        }
+                    }
+                    hist.push(Op12::Reset);
+                    hist.push(Op12::Init(0));
+                    let r0: Vec<u32> = rig.board.borrow().chips.iter().map(|c| c.resets).collect();
+                    let o1 = rig.apply(&Op12::Reset);
+                    let o2 = rig.apply(&Op12::Init(0));
+                    if !o1.is_ok() || !o2.is_ok() {
+                        ok = false;
+                        break;
+                    }
+                    let b = rig.board.borrow();
+                    for (ci, c) in b.chips.iter().enumerate() {
+                        rep.count("reset_pulses_checked", 1);
+                        if c.resets == r0[ci] {
+                            fails.push(("reset".into(), "no-reset-on-wake".into(), vec![format!("chip={}", CHIP_NAMES[ci])], format!("chip {} saw no reset pulse during reset()", CHIP_NAMES[ci])));
+                        }
+                        if c.asleep {
+                            fails.push(("reset".into(), "no-reset-on-wake".into(), vec![format!("chip={}", CHIP_NAMES[ci]), "still-asleep".into()], format!("chip {} still in deep sleep after reset(); init()", CHIP_NAMES[ci])));
+                        }
+                    }
+                }
+                if !ok {
+                    rep.count("ops_failing_for_other_reasons", 1);
+                    continue;
+                }
+                hist.extend(suf.iter().cloned());
+                let (snaps_ref, eff_ref, refr_ref) = reference(suf);
+                {
+                    let b = rig.board.borrow();
+                    for (ci, c) in b.chips.iter().enumerate() {
+                        rep.count("register_snapshots_compared", 1);
+                        let s = c.reg_snapshot();
+                        if s != snaps_ref[ci] {
+                            let k = s.iter().find(|(k, v)| snaps_ref[ci].get(k) != Some(v)).map(|(k, _)| *k).or_else(|| snaps_ref[ci].keys().find(|k| !s.contains_key(k)).copied()).unwrap_or(0);
+                            fails.push(("init".into(), "register-snapshot-differs".into(), vec![format!("reg={:02X}", k), format!("chip={}", CHIP_NAMES[ci])], format!("chip {} register {:02X} after wake-up differs from construction", CHIP_NAMES[ci], k)));
+                        }
+                    }
+                }
+                for c in rig.board.borrow_mut().chips.iter_mut() {
+                    c.mark();
+                }
+                let r0: Vec<usize> = rig.board.borrow().chips.iter().map(|c| c.refreshes.len()).collect();
+                for o in suf {
+                    let _ = rig.apply(o);
+                }
+                {
+                    let b = rig.board.borrow();
+                    for (ci, c) in b.chips.iter().enumerate() {
+                        let eff = (c.planes[0].writes, c.planes[1].writes);
+                        let refr = c.refreshes.len() - r0[ci];
+                        if eff != eff_ref[ci] || refr != refr_ref[ci] {
+                            fails.push(("reset".into(), "post-wake-memory-differs".into(), vec![format!("chip={}", CHIP_NAMES[ci])], format!("after wake-up the suffix stored {:?} bytes / {} refreshes on chip {}, after construction {:?} / {}", eff, refr, CHIP_NAMES[ci], eff_ref[ci], refr_ref[ci])));
+                        }
+                    }
+                    if !suf.is_empty() {
+                        rep.count("suffix_memory_effects_compared", 1);
+                    }
+                }
+                let case = J::obj().set("panel", P).set("history", hist.iter().map(|o| o.to_json()).collect::<Vec<_>>());
+                rep.nontrivial(hash_str(&format!("12c08|{}", case.to_string())));
+                fails.dedup();
+                for (entry, class, tags, detail) in fails {
+                    fail(rep, &entry, &class, tags, detail, case.clone());
+                }
+            }
+        }
+    }
+}
